@@ -17,7 +17,7 @@ def sh(cmd, cwd=None, timeout=3600):
 def nextest(cwd):
     rc, out = sh('cargo nextest run --workspace --no-fail-fast --offline 2>&1', cwd)
     m = re.search(r'Summary.*?(\d+) tests? run: (\d+) passed(?: \(.*?\))?(?:, (\d+) failed)?', out)
-    failed = sorted(set(re.findall(r'^\s+FAIL \[.*?\] +(\S+ \S+)', out, flags=re.M)))
+    failed = sorted(set(' '.join(x) for x in re.findall(r'^\s+FAIL \[[^\]]*\]\s+(?:\(\s*\d+/\d+\)\s+)?(\S+)\s+(\S+)', out, flags=re.M)))
     return rc, out, (int(m.group(1)), int(m.group(2)), int(m.group(3) or 0)) if m else None, failed
 
 res = {'label': label, 'property': prop, 'agent_worktree': wt}
